@@ -90,6 +90,13 @@ def subharnesses(tier):
             subs.append(('finished-batch%d-%s' % (bs, 'crash' if crash
                                                   else 'run'),
                          {'kind': 'finished', 'batch': bs, 'crash': crash}))
+    # the archiver is one long-lived process: two passes, a finished record
+    # rewritten in between (publish() re-puts /finished/<instance> on every
+    # terminal event)
+    for bs in (1, 2, 3):
+        subs.append(('finished-batch%d-two_passes' % bs,
+                     {'kind': 'finished', 'batch': bs, 'crash': False,
+                      'passes': 2}))
     for n in (0, 1, 3, 4, 5):
         subs.append(('prune-%d' % n, {'kind': 'prune', 'n': n}))
     for bs in (1, 2, 3, 4, 6):
@@ -132,9 +139,20 @@ def _run_with_crash(S, tree, fn, crash):
     tree.armed = False
 
 
-def _trace(S, spec):
+def _fresh_modules():
+    """Module-level state (a cache that outlives one archiver pass) must not
+    leak from one explored path into the next: the modules are re-executed at
+    the start of every path."""
+    import importlib
     from treadmill.trace import _zk
     from treadmill.trace.app import zk as tzk
+    _zk = importlib.reload(_zk)
+    tzk = importlib.reload(tzk)
+    return _zk, tzk
+
+
+def _trace(S, spec):
+    _zk, tzk = _fresh_modules()
     tzk.time = VT
     VT.now = S.int('now', 0, 10000)
     tree = memzk.Tree()
@@ -181,8 +199,7 @@ def _trace(S, spec):
 
 
 def _finished(S, spec):
-    from treadmill.trace import _zk
-    from treadmill.trace.app import zk as tzk
+    _zk, tzk = _fresh_modules()
     tzk.time = VT
     VT.now = S.int('now', 0, 10000)
     tree = memzk.Tree()
@@ -198,22 +215,50 @@ def _finished(S, spec):
     _run_with_crash(S, tree,
                     lambda: tzk.cleanup_finished(zk, spec['batch'], EXPIRES),
                     spec['crash'])
+    content = {inst: '{"state": "finished"}' for inst in INSTS}
+    if spec.get('passes') == 2:
+        # between the passes one record that is still live is rewritten (new
+        # content, new modification time), then time moves on
+        k = S.choice('rewritten_record', len(INSTS))
+        inst = INSTS[k]
+        if '/finished/' + inst in tree.nodes:
+            mt2 = S.int('rewritten_mtime', 0, 20000)
+            S.require(S.z(mt2) >= S.z(pre['/finished/' + inst][1]))
+            S.require(S.z(mt2) <= S.z(VT.now) + 5000)
+            node = tree.nodes['/finished/' + inst]
+            node.data = b'{"state": "finished", "when": 2}'
+            node.mtime = SymTime(mt2)
+            content[inst] = '{"state": "finished", "when": 2}'
+            pre['/finished/' + inst] = (inst, mt2)
+            S.reach('rewritten_between_passes')
+        now2 = S.int('now2', 0, 30000)
+        S.require(S.z(now2) >= S.z(VT.now))
+        VT.now = now2
+        tzk.cleanup_finished(zk, spec['batch'], EXPIRES)
+        S.reach('second_pass')
     S.reach('archived')
     import sqlite3, tempfile, zlib, os
     archived = set()
+    archived_content = {}
     for sn in tree.children('/finished.history'):
         data = tree.nodes['/finished.history/' + sn].data
         with tempfile.NamedTemporaryFile(delete=False, mode='wb') as f:
             f.write(zlib.decompress(data))
         conn = sqlite3.connect(f.name)
-        for row in conn.execute('SELECT name FROM finished'):
+        for row in conn.execute('SELECT name, data FROM finished'):
             archived.add(row[0])
+            archived_content.setdefault(row[0], []).append(row[1])
         conn.close()
         os.unlink(f.name)
     for path, (inst, mt) in pre.items():
         live = path in tree.nodes
         S.check('C18:finished_record_neither_live_nor_in_a_snapshot',
                 live or inst in archived, {'instance': inst})
+        if not live and inst in archived:
+            S.check('C18:archived_finished_record_has_stale_content',
+                    content[inst] in archived_content[inst],
+                    {'instance': inst, 'archived': archived_content[inst],
+                     'latest': content[inst]})
         if not live:
             S.reach('event_archived')
             S.check('C18:finished_record_younger_than_expiry_archived',
